@@ -282,9 +282,24 @@ var Injectors = []injector{
 		}
 		i := r.Intn(len(cands))
 		*ids++
-		nd := &Dir{ID: *ids, Kw: "Request", Params: []Param{bare("any")}}
+		nd := &Dir{ID: *ids, Kw: "Request"}
+		switch r.Intn(4) {
+		case 0:
+			nd.Params = []Param{bare("any")}
+		case 1:
+			nd.Params, nd.BodyKind, nd.Body = []Param{bare("regex")}, "regex", []string{"/ab+/"}
+		case 2:
+			nd.BodyKind, nd.Body = "schema", []string{"{", `  "second": 2`, "}"}
+		default:
+			*ids++
+			nd.Children = []*Dir{{ID: *ids, Kw: "Body", Params: []Param{bare("regex")}, BodyKind: "regex", Body: []string{"/x+/"}}}
+		}
 		parents[i].Children = append(parents[i].Children, nd)
-		return &Fault{Class: "second:Request", Msg: []string{msgNotUnique}, DirID: nd.ID}
+		f := &Fault{Class: "second:Request", Msg: []string{msgNotUnique}, DirID: nd.ID}
+		if len(nd.Children) > 0 {
+			f.AlsoIDs = []int{nd.Children[0].ID} // the second body is the Body child
+		}
+		return f
 	}},
 	{"undefined:type-parameter", func(r Rnd, tree *[]*Dir, ids *int) *Fault {
 		cands, _ := collect(*tree, func(d, p *Dir) bool { return isMethodKw(d.Kw) })
